@@ -232,6 +232,69 @@ pub fn c17(r: &mut Rng, sz: &Sizes, out: &mut Vec<String>) {
     }
 }
 
+pub fn c03(r: &mut Rng, sz: &Sizes, out: &mut Vec<String>) {
+    merger_ops(r, sz, out);
+    for (a, b) in pairs(r, sz) {
+        out.push(format!("subset\t{}\t{}", sx(&a), sx(&b)));
+    }
+    infer_ops(r, sz, out, false);
+    for _ in 0..sz.histories {
+        let h = rand_history(r, &KEYS[..8]);
+        let hexes: Vec<String> = h.iter().map(|d| hex_doc(d, r.below(4))).collect();
+        out.push(format!("p_c03\t{}\t!ok", hexes.join("\t")));
+    }
+}
+
+/// shapes as single-document inference produces them, from random documents and their parts
+fn sample_shapes(r: &mut Rng, n: usize) -> Vec<JsonShape> {
+    use std::str::FromStr;
+    let mut out = Vec::new();
+    for i in 0..n {
+        let d = rand_doc(r, i % 4, &KEYS[..4]);
+        if let Ok(s) = JsonShape::from_str(&d.render(0)) {
+            collect_parts(&s, &mut out);
+        }
+    }
+    out.sort();
+    out.dedup();
+    out
+}
+
+fn collect_parts(s: &JsonShape, out: &mut Vec<JsonShape>) {
+    out.push(s.clone());
+    match s {
+        JsonShape::Array { r#type, .. } => collect_parts(r#type, out),
+        JsonShape::Object { content, .. } => content.values().for_each(|v| collect_parts(v, out)),
+        JsonShape::Tuple { elements, .. } => elements.iter().for_each(|v| collect_parts(v, out)),
+        JsonShape::OneOf { variants, .. } => variants.iter().for_each(|v| collect_parts(v, out)),
+        _ => {}
+    }
+}
+
+pub fn keeps(r: &mut Rng, sz: &Sizes, out: &mut Vec<String>) {
+    let samples = sample_shapes(r, 400);
+    // accumulators: folds of merger over samples
+    let mut accs: Vec<JsonShape> = samples.clone();
+    for _ in 0..2000 {
+        let a = r.pick(&accs).clone();
+        let b = r.pick(&samples).clone();
+        let m = json_shape::verif::merger(a, b).unwrap();
+        accs.push(m);
+    }
+    let mut parts = Vec::new();
+    for a in &accs {
+        collect_parts(a, &mut parts);
+    }
+    parts.sort();
+    parts.dedup();
+    for _ in 0..sz.pairs * 10 {
+        let s0 = r.pick(&samples);
+        let a = if r.chance(1, 2) { r.pick(&parts) } else { r.pick(&accs) };
+        let b = if r.chance(2, 3) { r.pick(&samples) } else { r.pick(&parts) };
+        out.push(format!("p_keeps\t{}\t{}\t{}\t!ok", sx(s0), sx(a), sx(b)));
+    }
+}
+
 pub fn generate(prop: &str, tier: &str, seed: u64) -> Vec<String> {
     let mut r = Rng(seed ^ 0x5eed_0000 ^ (prop.bytes().fold(0u64, |a, b| a * 131 + b as u64)));
     let sz = sizes(tier);
@@ -240,6 +303,8 @@ pub fn generate(prop: &str, tier: &str, seed: u64) -> Vec<String> {
         "C10" => c10(&mut r, &sz, &mut out),
         "C01" => c01(&mut r, &sz, &mut out),
         "C02" => c02(&mut r, &sz, &mut out),
+        "C03" => c03(&mut r, &sz, &mut out),
+        "keeps" => keeps(&mut r, &sz, &mut out),
         "C06" => c06(&mut r, &sz, &mut out),
         "C08" => c08(&mut r, &sz, &mut out),
         "C17" => c17(&mut r, &sz, &mut out),
